@@ -69,7 +69,8 @@ class Found(Exception):
 def worker(args):
     prop_name, binary, tier, seed, widx, n_examples, wall_limit, stop_file = args
     import hypothesis
-    import hypothesis.internal.conjecture.engine as _ce
+    import hypothesis.internal.conjecture.engine as _ce, warnings
+    warnings.filterwarnings('ignore')
     _ce.MAX_SHRINKING_SECONDS = 25
     from hypothesis import given, settings, strategies as st, HealthCheck, Phase
     mod = importlib.import_module("props." + prop_name)
@@ -123,7 +124,7 @@ def worker(args):
 
         @hypothesis.seed(hseed)
         @settings(max_examples=n, database=None, deadline=None, derandomize=False, report_multiple_bugs=False,
-                  phases=[Phase.generate, Phase.shrink], suppress_health_check=list(HealthCheck), print_blob=False)
+                  phases=[Phase.generate, Phase.shrink], suppress_health_check=list(HealthCheck), print_blob=False, verbosity=hypothesis.Verbosity.quiet)
         @given(st.data())
         def prop(data):
             texts = mod.example(data.draw, tier)
@@ -233,9 +234,10 @@ def aggregate(mod, tier, seed, results, wall_s, binary):
             known_hits.append(k["id"])
         else:
             new_viols.append(v)
-    os.makedirs(os.path.join(VERIF, "replays"), exist_ok=True)
+    rdir = os.environ.get("VERIF_REPLAY_DIR", os.path.join(VERIF, "replays"))
+    os.makedirs(rdir, exist_ok=True)
     for v in new_viols[:3]:
-        path = os.path.join(VERIF, "replays", "%s-%s.case" % (pid, digest(v["case"])))
+        path = os.path.join(rdir, "%s-%s.case" % (pid, digest(v["case"])))
         with open(path, "w") as f:
             f.write(v["case"] if v["case"].endswith("\n") else v["case"] + "\n")
             f.write("# verdict: %s\n" % v["msg"].replace("\n", " "))
